@@ -10,8 +10,8 @@ code->spec : conformance with the transducers + monitor C01 on the observed Fini
 from flow import Run, replay_file
 
 PROP = "C01"
-ALL = ["drop", "dup", "swap", "flip", "wrej"]
-LINK = ["drop", "dup", "swap"]
+ALL = ["drop", "dup", "swap", "hold", "flip", "wrej"]
+LINK = ["drop", "dup", "swap", "hold"]
 
 
 def run(tier: str, keep: bool = False) -> int:
